@@ -6,13 +6,21 @@ from harness.props import prop, Prop, merge_stats
 from harness.oracles4 import QUERIES
 
 INDEX_SET = [-6, 0, 2, 8]        # -1.5, 0, 0.5, 2 in quarter units: negative, fractional, non-consecutive
+# indices far from 0 and close together (timestamps a quarter apart; large integers differing by 1):
+# distinct numbers whatever their magnitude
+BIG_INDEX_SETS = [[6800000000, 6800000001, 6800000002, 6800000005],
+                  [4 * 10 ** 15, 4 * 10 ** 15 + 4, 4 * 10 ** 15 + 8, 4 * 10 ** 15 + 20],
+                  [-6800000002, -6800000001, 0, 6800000001]]
 
-def filtration_history(rnd, steps, checks=True, attrs=False, nav=True, pool=None, pad=False):
+def filtration_history(rnd, steps, checks=True, attrs=False, nav=True, pool=None, pad=False, index_set=None):
     """a history over one filtration f, driven by a live implementation run so that requests are
     in contract: faces (and every existing subset of a basis) visible at the current index"""
     w = impl.ImplWorld()
     pool = pool or rnd.choice([[1, 2, 3, 4, 5], ['a', 'b', 'c', 'd'], [1, 'b', (3,), 4, 'e']])
     lines = []; stats = {}
+    INDEX_SET = index_set or (rnd.choice(BIG_INDEX_SETS) if rnd.random() < 0.2 else globals()['INDEX_SET'])
+    if INDEX_SET[0] != -6 or INDEX_SET[-1] != 8:
+        stats['big_indices'] = 1
     def emit(l, bracket=True):
         if checks and bracket:
             lines.append('echo --'); lines.append('check c13-pre f ' + l)
